@@ -6,6 +6,7 @@ THEOREMS = {
         "Dawgs.C03.Props.schema_tables_tie", "Dawgs.C03.Props.schema_composites_tie", "Dawgs.C03.Props.schema_functions_tie",
         "Dawgs.C03.Props.wellScoped_sound", "Dawgs.C03.Props.wellScoped_no_error", "Dawgs.C03.Props.wellScoped_no_unbound",
         "Dawgs.C03.Props.applyShape_match", "Dawgs.C03.Props.cte_columns_match",
+        "Dawgs.C03.Props.params_closed", "Dawgs.C03.Props.missing_param_rejected", "Dawgs.C03.Props.c03_partial",
     ],
 }
 
@@ -144,7 +145,7 @@ SPEC = {
     "regen": do_regen,
     "lean_modules": ["Dawgs.Props.C03"],
     "theorems_by_module": THEOREMS,
-    "gate_modules": ["Dawgs.Model.Sql", "Dawgs.Model.C03", "Dawgs.Model.C03Bind", "Dawgs.Model.SqlSchema", "Dawgs.Proofs.C03", "Dawgs.Props.C03"],
+    "gate_modules": ["Dawgs.Model.Sql", "Dawgs.Model.C03", "Dawgs.Model.C03Bind", "Dawgs.Model.SqlSchema", "Dawgs.Proofs.C03", "Dawgs.Proofs.C03Frag", "Dawgs.Props.C03"],
     "suites": [{"name": "c03", "model_suite": "c03", "model_input": model_input, "impl_view": impl_view, "model_view": model_view,
                 "judge": judge, "keep_prefix": 1, "thorough_seeds": 1}],
     "nontrivial": nontrivial,
@@ -165,7 +166,8 @@ SPEC = {
                      "harness/sexp.go reflection rendering of the pgsql AST and Driver/SqlSexp.lean reader (unknown node -> unmodelled, never guessed)",
                      "SQL passed as TEXT to the *_harness functions (shortest paths) is not bound: those statements are counted as unmodelled dynamic-sql"],
     "assumptions": ["per-output validation: the universally quantified claim is wellScoped_sound (binder ⇒ resolution succeeds); that every emitted statement passes the binder is "
-                    "checked case by case, and proved only for the model translator fragment of C01 (C03_full)"],
+                    "checked case by case, and PROVED only for the model translator of C01 (c03_partial : C03_for C01.tr — every stage-S1 statement resolves under the schema with no "
+                    "parameters, tied to the real translator by C01's suite c01tie); C03_full (a total translator) stays a visible undischarged Prop"],
 }
 
 MANIFEST = {
@@ -174,6 +176,9 @@ MANIFEST = {
     "text": "Theorem wellScoped_sound (all environments, all statements of the modelled SQL AST incl. recursive/materialized CTEs, LATERAL, joins, correlated subqueries, composite field "
             "selection, DML): binder accepts ⇒ the resolution semantics returns no unbound / ambiguous / arity / missing-parameter / DML-without-update error. The binder is run on every "
             "statement the REAL translator emits for the repository corpora, structured random queries and query-builder ASTs; non-ok outcomes are findings (several genuine ones on the "
-            "unchanged tree, see known_findings.json), unknown AST nodes and dynamic SQL are counted as unmodelled.",
+            "unchanged tree, see known_findings.json), unknown AST nodes and dynamic SQL are counted as unmodelled. "
+            "params_closed / missing_param_rejected: acceptance under the parameter names ps excludes the missing-parameter error, and a statement using a parameter outside ps is rejected. "
+            "c03_partial : C03_for C01.tr — PROVED for the model translator of C01 (stage S1, all queries, all kind maps): its statements pass the binder, hence resolve, under the schema with "
+            "no parameters. C03_full (the same for a total translator) is a visible, undischarged Prop.",
     "note": "Not a proof about the Go translator: per-output validation. PostgreSQL's scoping rules are a trusted Lean transcription of the documentation (no server in the sandbox).",
 }
